@@ -58,13 +58,6 @@ pub open spec fn ranges_view(v: Seq<Range<usize>>) -> Seq<(int, int)> {
     Seq::new(v.len(), |i: int| (v[i].start as int, v[i].end as int))
 }
 
-/// what the whitespace pass may rely on: ascending, separated, blank-only ranges strictly inside (s, e)
-pub open spec fn block_safe(b: Seq<u8>, s: int, e: int, v: Seq<Range<usize>>) -> bool {
-    &&& forall|i: int| 0 <= i < v.len() ==> s < (#[trigger] v[i]).start < v[i].end <= e && v[i].end <= b.len()
-    &&& forall|i: int| 0 <= i < v.len() ==> all_blank(b, (#[trigger] v[i]).start as int, v[i].end as int)
-    &&& forall|i: int, j: int| 0 <= i < j < v.len() ==> (#[trigger] v[i]).end < (#[trigger] v[j]).start
-}
-
 //@fn id=trait_block_formatter file=code/formatter.rs name=format in="trait BlockFormatter" props=C01,C02,C12,C14
 //@ret r
 //@requires
